@@ -80,6 +80,11 @@ func (g *Gen) call(st *State, v ssa.Value, c *ssa.CallCommon, ins ssa.Instructio
 		g.unknownCall(st, v, "dynamic call", sig)
 		return
 	}
+	// site-specific contract (evaluated in the caller's scope)
+	if sct := g.siteContract(ins, key); sct != nil {
+		g.applySiteContract(st, v, sct, sig, pos)
+		return
+	}
 	ct := g.eng.db.Contracts[key]
 	if ct == nil {
 		if g.eng.isPureExtern(key) {
@@ -93,7 +98,7 @@ func (g *Gen) call(st *State, v ssa.Value, c *ssa.CallCommon, ins ssa.Instructio
 		g.unknownCall(st, v, key, sig)
 		return
 	}
-	g.applyContract(st, v, ct, c.StaticCallee(), sig, args, nil, pos)
+	g.applyContract(st, v, ct, c.StaticCallee(), sig, args, nil, pos, argVals...)
 }
 
 func (g *Gen) assumeKnownRefAfterCall(st *State, t types.Type, term string) {
@@ -139,7 +144,7 @@ func calleeParams(fn *ssa.Function, sig *types.Signature, invoke bool) (names []
 	return
 }
 
-func (g *Gen) calleeEnv(st *State, old *State, ct *Contract, fn *ssa.Function, sig *types.Signature, args []string, bindings []ssa.Value) *Env {
+func (g *Gen) calleeEnv(st *State, old *State, ct *Contract, fn *ssa.Function, sig *types.Signature, args []string, bindings []ssa.Value, argVals ...ssa.Value) *Env {
 	e := &Env{g: g, sc: g.sc, eng: g.eng, st: st, old: old, vars: map[string]tv{}}
 	e.pkg = g.eng.typesPkg(ct.Pkg)
 	if e.pkg == nil && fn != nil && fn.Pkg != nil {
@@ -151,8 +156,18 @@ func (g *Gen) calleeEnv(st *State, old *State, ct *Contract, fn *ssa.Function, s
 	names, tys := calleeParams(fn, sig, false)
 	for i := range names {
 		if i < len(args) {
-			e.vars[names[i]] = tv{t: args[i], ty: goT(tys[i])}
-			e.vars[fmt.Sprintf("arg%d", i)] = tv{t: args[i], ty: goT(tys[i])}
+			v := tv{t: args[i], ty: goT(tys[i])}
+			if i < len(argVals) {
+				if fa, ok := argVals[i].(*ssa.FieldAddr); ok {
+					if pt, ok := tys[i].Underlying().(*types.Pointer); ok {
+						if _, isStruct := pt.Elem().Underlying().(*types.Struct); !isStruct {
+							v.dtag = g.leafTagFor(fa, pt.Elem())
+						}
+					}
+				}
+			}
+			e.vars[names[i]] = v
+			e.vars[fmt.Sprintf("arg%d", i)] = v
 		}
 	}
 	if fn != nil {
@@ -183,13 +198,13 @@ func (g *Gen) calleeEnv(st *State, old *State, ct *Contract, fn *ssa.Function, s
 	return e
 }
 
-func (g *Gen) applyContract(st *State, v ssa.Value, ct *Contract, fn *ssa.Function, sig *types.Signature, args []string, bindings []ssa.Value, pos token.Pos) {
+func (g *Gen) applyContract(st *State, v ssa.Value, ct *Contract, fn *ssa.Function, sig *types.Signature, args []string, bindings []ssa.Value, pos token.Pos, argVals ...ssa.Value) {
 	short := ct.Key
 	if i := strings.LastIndex(short, "/"); i >= 0 {
 		short = short[i+1:]
 	}
 	g.eng.usedContracts[ct.Key] = true
-	pre := g.calleeEnv(st, st, ct, fn, sig, args, bindings)
+	pre := g.calleeEnv(st, st, ct, fn, sig, args, bindings, argVals...)
 	for _, c := range ct.Requires {
 		t, err := pre.formula(c.E)
 		if err != nil {
@@ -236,7 +251,7 @@ func (g *Gen) applyContract(st *State, v ssa.Value, ct *Contract, fn *ssa.Functi
 		g.assumeKnownRef(st, sig.Results().At(i).Type(), r)
 	}
 	g.setResults(v, sig, rs)
-	post := g.calleeEnv(st, oldSt, ct, fn, sig, args, bindings)
+	post := g.calleeEnv(st, oldSt, ct, fn, sig, args, bindings, argVals...)
 	bindResults(post, sig, rs)
 	for _, c := range ct.Ensures {
 		t, err := post.formula(c.E)
@@ -612,26 +627,23 @@ func (g *Gen) frameObligation() {
 	if g.ct == nil {
 		return
 	}
-	// tags touched anywhere
-	var parts []string
-	for _, rp := range g.rets {
-		env := g.exitEnv(rp.st, rp.results)
-		_ = env
-		var tags []string
-		for tag := range g.sc.tagSort {
-			if strings.HasPrefix(tag, "K:") || strings.HasPrefix(tag, "VR:") || strings.HasPrefix(tag, "V!") || tag == "!frontier" {
-				continue
-			}
-			tags = append(tags, tag)
+	var tags []string
+	for tag := range g.sc.tagSort {
+		if strings.HasPrefix(tag, "K:") || strings.HasPrefix(tag, "VR:") || strings.HasPrefix(tag, "V!") || tag == "!frontier" {
+			continue
 		}
-		sortStrings(tags)
-		for _, tag := range tags {
+		tags = append(tags, tag)
+	}
+	sortStrings(tags)
+	for _, tag := range tags {
+		var parts []string
+		was := g.sc.lookup(g.entry, tag)
+		srt := g.sc.tagSort[tag]
+		for _, rp := range g.rets {
 			now := g.sc.lookup(rp.st, tag)
-			was := g.sc.lookup(g.entry, tag)
 			if now == was {
 				continue
 			}
-			srt := g.sc.tagSort[tag]
 			if strings.HasPrefix(tag, "G!") {
 				if g.modifiesGhost(tag[2:]) {
 					continue
@@ -653,11 +665,11 @@ func (g *Gen) frameObligation() {
 			}
 			parts = append(parts, fmt.Sprintf("(=> %s (forall ((r Ref)) (=> %s (= (select %s r) (select %s r)))))", rp.st.pc, cond, now, was))
 		}
+		if len(parts) == 0 {
+			continue
+		}
+		g.addObl("frame", tag, &State{pc: "true"}, "(and "+strings.Join(parts, " ")+")", token.NoPos)
 	}
-	if len(parts) == 0 {
-		return
-	}
-	g.addObl("frame", "modifies", &State{pc: "true"}, "(and "+strings.Join(parts, " ")+")", token.NoPos)
 }
 
 func (g *Gen) modifiesGhost(name string) bool {
@@ -744,6 +756,132 @@ func sortStrings(s []string) {
 	for i := 1; i < len(s); i++ {
 		for j := i; j > 0 && s[j] < s[j-1]; j-- {
 			s[j], s[j-1] = s[j-1], s[j]
+		}
+	}
+}
+
+// siteContract finds "site:<caller>:<callee>#n" where n is the 1-based source-order index of this call
+// among the calls to the same callee in the function.
+func (g *Gen) siteContract(ins ssa.Instruction, key string) *Contract {
+	prefix := "site:" + g.fn.String() + ":" + key + "#"
+	has := false
+	for k := range g.eng.db.Contracts {
+		if strings.HasPrefix(k, prefix) {
+			has = true
+		}
+	}
+	if !has {
+		return nil
+	}
+	var poss []token.Pos
+	for _, b := range g.fn.Blocks {
+		for _, i2 := range b.Instrs {
+			if ci, ok := i2.(ssa.CallInstruction); ok && calleeKey(ci.Common()) == key {
+				poss = append(poss, i2.Pos())
+			}
+		}
+	}
+	n := 1
+	for _, p := range poss {
+		if p < ins.Pos() {
+			n++
+		}
+	}
+	return g.eng.db.Contracts[fmt.Sprintf("%s%d", prefix, n)]
+}
+
+func (g *Gen) applySiteContract(st *State, v ssa.Value, ct *Contract, sig *types.Signature, pos token.Pos) {
+	g.eng.usedContracts[ct.Key] = true
+	pre := g.baseEnv(st)
+	pre.old = st
+	g.bindLocalsForSite(pre, st)
+	for _, c := range ct.Requires {
+		t, err := pre.formula(c.E)
+		if err != nil {
+			g.refusef("site %s: requires %q: %v", ct.Key, c.Text, err)
+			return
+		}
+		label := c.Label
+		if label == "" {
+			label = c.Text
+		}
+		g.addObl("pre", "site:"+label, st, t, pos)
+		g.sc.assume(st.pc, t)
+	}
+	oldSt := st.clone()
+	if ct.ModAll {
+		g.havocAll(st)
+	} else if !ct.Pure {
+		for _, loc := range ct.Modifies {
+			if err := g.havocLocation(st, pre, loc); err != nil {
+				g.refusef("site %s: modifies %q: %v", ct.Key, loc, err)
+				return
+			}
+		}
+		fr := g.frontier(st)
+		nf := g.sc.fresh("frontier", "Int")
+		g.sc.emit("(assert (>= %s %s))", nf, fr)
+		st.mem["!frontier"] = nf
+	}
+	rs := g.freshResults(st, "site", sig)
+	for i, r := range rs {
+		g.assumeKnownRef(st, sig.Results().At(i).Type(), r)
+	}
+	g.setResults(v, sig, rs)
+	post := g.baseEnv(st)
+	post.old = oldSt
+	g.bindLocalsForSite(post, oldSt)
+	// results of the call: result/err/resultN (shadowing the caller's own result names)
+	rsig := sig.Results()
+	for i := 0; i < rsig.Len() && i < len(rs); i++ {
+		val := tv{t: rs[i], ty: goT(rsig.At(i).Type())}
+		post.vars[fmt.Sprintf("result%d", i)] = val
+		if rsig.Len() == 1 || i == 0 {
+			post.vars["result"] = val
+		}
+		if i == rsig.Len()-1 && rsig.At(i).Type().String() == "error" {
+			post.vars["err"] = val
+			if rsig.Len() == 1 {
+				post.vars["result"] = val
+			}
+		}
+	}
+	for _, c := range ct.Ensures {
+		t, err := post.formula(c.E)
+		if err != nil {
+			g.refusef("site %s: ensures %q: %v", ct.Key, c.Text, err)
+			return
+		}
+		g.sc.assume(st.pc, t)
+	}
+}
+
+// bindLocalsForSite exposes the caller's named locals that have a unique SSA value (already computed).
+func (g *Gen) bindLocalsForSite(e *Env, st *State) {
+	byName := map[string][]ssa.Value{}
+	for _, b := range g.fn.Blocks {
+		for _, ins := range b.Instrs {
+			if d, ok := ins.(*ssa.DebugRef); ok && !d.IsAddr && d.Object() != nil {
+				if _, isVar := d.Object().(*types.Var); isVar {
+					dup := false
+					for _, x := range byName[d.Object().Name()] {
+						if x == d.X {
+							dup = true
+						}
+					}
+					if !dup {
+						byName[d.Object().Name()] = append(byName[d.Object().Name()], d.X)
+					}
+				}
+			}
+		}
+	}
+	for name, vs := range byName {
+		if _, has := e.vars[name]; has || len(vs) != 1 {
+			continue
+		}
+		if t, ok := g.val[vs[0]]; ok {
+			e.vars[name] = tv{t: t, ty: goT(vs[0].Type())}
 		}
 	}
 }
